@@ -15,15 +15,17 @@ static void run(Src &s) {
   econf_reset_security_settings();
   TreeOpts to;
   to.max_consulted = 5;
-  // entry point: 0 readConfig, 1 readConfigWithCallback, 2 readDirs, 3 readDirsHistory, 4 readFile, 5 readDirsWithCallback
-  size_t ep = s.weighted({30, 12, 18, 16, 14, 10});
-  if (ep == 2 || ep == 3 || ep == 5) to.only_twodirs = true;
+  // entry point: 0 readConfig, 1 readConfigWithCallback, 2 readDirs, 3 readDirsHistory, 4 readFile, 5 readDirsWithCallback,
+  // 6 readDirsHistoryWithCallback, 7 readFileWithCallback (the callbacks accept everything)
+  size_t ep = s.weighted({30, 12, 18, 16, 12, 10, 8, 8});
+  const bool single = ep == 4 || ep == 7;
+  if (ep == 2 || ep == 3 || ep == 5 || ep == 6) to.only_twodirs = true;
   else to.allow_twodirs = false;
   Params pa = gen_params(s, to);
   if (pa.scheme == S_TWODIRS) pa.dirarg_mode[0] = pa.dirarg_mode[1] = 0;
   Tree t = gen_tree(s, pa, to);
   std::vector<Consulted> cons = consulted_files(t, pa);
-  if (ep == 4) {
+  if (single) {
     if (cons.empty()) {
       g_case.desc = "no consulted file";
       return;
@@ -77,7 +79,8 @@ static void run(Src &s) {
           if (chown(par.c_str(), req_uid, req_gid) != 0) perror("chown dir");
         }
   }
-  static const char *EPN[6] = {"readConfig", "readConfigWithCallback", "readDirs", "readDirsHistory", "readFile", "readDirsWithCallback"};
+  static const char *EPN[8] = {"readConfig", "readConfigWithCallback", "readDirs", "readDirsHistory", "readFile", "readDirsWithCallback",
+                               "readDirsHistoryWithCallback", "readFileWithCallback"};
   g_case.desc = std::string(EPN[ep]) + " rules=" + (r_owner ? "owner(" + std::to_string(req_uid) + ") " : "") +
                 (r_group ? "group(" + std::to_string(req_gid) + ") " : "") + (r_nolink ? "nolink " : "") + describe(t, pa) +
                 " offender=" + (offender < cons.size() ? std::to_string(offender) + "/" + std::to_string(cons.size()) : std::string("none"));
@@ -102,12 +105,13 @@ static void run(Src &s) {
   if (relative) g_case.tag("relative_paths");
   auto do_read = [&](ReadResult &rr, Observed &ob, bool &have, std::vector<Observed> &hob) {
     CbCtx cb;
-    if (ep == 4) {
+    if (single) {
       econf_file *kf = (econf_file *)-1;
-      rr.rc = econf_readFile(&kf, cons[0].path(rroot).c_str(), D.c_str(), "#");
+      rr.rc = ep == 4 ? econf_readFile(&kf, cons[0].path(rroot).c_str(), D.c_str(), "#")
+                      : econf_readFileWithCallback(&kf, cons[0].path(rroot).c_str(), D.c_str(), "#", vf_accept_all_cb, nullptr);
       rr.kf = kf == (econf_file *)-1 ? nullptr : kf;
     } else {
-      static const ReadMode M[6] = {RM_CONFIG, RM_CONFIG_CB, RM_DIRS, RM_HIST, RM_CONFIG, RM_DIRS_CB};
+      static const ReadMode M[8] = {RM_CONFIG, RM_CONFIG_CB, RM_DIRS, RM_HIST, RM_CONFIG, RM_DIRS_CB, RM_HIST_CB, RM_CONFIG};
       rr = read_tree(t, pa, rroot, M[ep], &cb);
     }
     have = rr.kf != nullptr;
@@ -149,9 +153,23 @@ static void run(Src &s) {
   };
 
   // ---- with the restrictions in force
-  if (r_owner) econf_requireOwner(req_uid);
-  if (r_group) econf_requireGroup(req_gid);
-  if (r_nolink) econf_followSymlinks(false);
+  // the setters are independent of each other: any order, an explicit "follow symbolic links" when that rule is
+  // off, and a permission rule that every generated file and directory satisfies must not change the outcome
+  {
+    bool explicit_allow = !r_nolink && s.chance(40), r_perm = s.chance(30);
+    int order[4] = {0, 1, 2, 3};
+    for (int i = 3; i > 0; i--) std::swap(order[i], order[s.below((uint32_t)i + 1)]);
+    for (int k : order) {
+      if (k == 0 && r_owner) econf_requireOwner(req_uid);
+      if (k == 1 && r_group) econf_requireGroup(req_gid);
+      if (k == 2 && r_nolink) econf_followSymlinks(false);
+      if (k == 2 && explicit_allow) econf_followSymlinks(true);
+      if (k == 3 && r_perm) econf_requirePermissions(S_IRUSR, S_IXUSR);
+    }
+    if (explicit_allow) g_case.tag("explicit_follow_symlinks");
+    if (r_perm) g_case.tag("satisfied_permission_rule");
+    if (order[0] != 0 || order[1] != 1 || order[2] != 2) g_case.tag("setters_in_other_order");
+  }
   ReadResult rr;
   Observed ob;
   bool have = false;
